@@ -14,7 +14,12 @@ import glob
 table = {os.path.basename(f)[:-5]: json.load(open(f)) for f in sorted(glob.glob(f"{ROOT}/tools/checks.d/C*.json"))}
 
 
+READY = set(open(f"{ROOT}/tools/ready.txt").read().split())
+
+
 def has_bin(pid):
+    if pid not in READY:
+        return False
     b = pid.lower() + ".rs"
     return any(os.path.exists(f"{ROOT}/mc/{pkg}/src/bin/{b}") for pkg in ("props", "cprops"))
 
